@@ -65,6 +65,8 @@ pub struct Probe {
 }
 
 pub const FILL_CAP: usize = 72 * 1024;
+/// list-length probes carry that many real entries at most
+pub const LIST_CAP: usize = 4200;
 
 /// deterministic continuation pattern: low nibble position-dependent, type bits 000, no continuation bit -
 /// so an unterminated TLF terminates at once and shifted data slices are visible
@@ -136,7 +138,17 @@ fn skeleton(pos: Pos, field: &[u8]) -> (Vec<u8>, usize) {
             m.extend_from_slice(&[0x03, 0xa1, 0xa2, 0x62, 0x00, 0x62, 0x00, 0x72, 0x63, 0x07, 0x01, 0x77, 0x01, 0x03, 0xb1, 0xb2, 0x01, 0x01]);
             off = m.len();
             m.extend_from_slice(field);
-            // no entries follow: only the announcement is observed
+            // as many minimal entries as the REFERENCE reads from the list TLF (capped: beyond the cap the
+            // message is truncated and the expected outcome is an error for any parser), then the list trailer -
+            // a complete message, so the announcement is visible no matter when a parser emits its events
+            if let Ok(t) = ref_tlf(field) {
+                if t.ty == RTy::List && (t.len as usize) <= LIST_CAP {
+                    for _ in 0..t.len {
+                        m.extend_from_slice(&[0x77, 0x01, 0x01, 0x01, 0x01, 0x01, 0x01, 0x01]);
+                    }
+                    m.extend_from_slice(&[0x01, 0x01]);
+                }
+            }
         }
         Pos::Value | Pos::Scaler | Pos::Status | Pos::Time => {
             m.extend_from_slice(&[0x03, 0xa1, 0xa2, 0x62, 0x00, 0x62, 0x00, 0x72, 0x63, 0x07, 0x01, 0x77, 0x01, 0x03, 0xb1, 0xb2, 0x01, 0x01, 0x71]);
@@ -183,6 +195,8 @@ enum Seen {
     Stat(AStatus),
     Time(ATime),
     Error,
+    /// either this number or an error (incomplete probe message)
+    NumOrError(u64),
     /// the field was accepted but is not visible at this position (should not happen)
     Hidden,
 }
@@ -254,7 +268,11 @@ fn expect(pos: Pos, x: &[u8], off: usize) -> Seen {
             Err(_) => Seen::Error,
         },
         Pos::ListLen => match ref_tlf(rest) {
-            Ok(t) if t.ty == RTy::List => Seen::Num(t.len as u64),
+            Ok(t) if t.ty == RTy::List && (t.len as usize) <= LIST_CAP => Seen::Num(t.len as u64),
+            // more entries announced than the probe carries: the message is incomplete. A parser that emits the
+            // announcement before reading the entries shows the (correct) number, one that validates first reports
+            // an error - both are fine, a different number is not
+            Ok(t) if t.ty == RTy::List => Seen::NumOrError(t.len as u64),
             _ => Seen::Error,
         },
         Pos::Value => match ref_value(rest) {
@@ -305,7 +323,12 @@ impl PropCase for Probe {
         let want = expect(self.pos, &x, off);
         let got = observe(self.pos, &x);
         let tl = ref_tlf(&x[off..]);
-        if want != got {
+        let matches = match (&want, &got) {
+            (Seen::NumOrError(n), Seen::Num(m)) => n == m,
+            (Seen::NumOrError(_), Seen::Error) => true,
+            (w, g) => w == g,
+        };
+        if !matches {
             let sub = match (&want, &got) {
                 (Seen::Error, _) => "accepts-what-must-be-rejected",
                 (_, Seen::Error) => "rejects-what-must-be-accepted",
@@ -319,7 +342,7 @@ impl PropCase for Probe {
         }
         // the allocating parser on the same bytes with a valid checksum: when the reference accepts the whole
         // input the content must be equal, otherwise it must be rejected
-        if self.pos != Pos::ListLen {
+        {
             let r = ref_parse(&x);
             let c = run_complete(&x);
             match (&r, &c) {
